@@ -414,3 +414,137 @@ def h_dispatch(disp, kind, v, tenv):
           {k: (env0.get(k), os.environ.get(k))
            for k in set(env0) | set(os.environ)
            if env0.get(k) != os.environ.get(k)})
+
+
+# ------------------------------------------------------------------------------
+# the whole chain of one request: DefaultWorker._dispatch/_worker_proc ->
+# result queue -> DefaultWorker._result_cb -> Master._result_cb
+#
+class SyncProc(object):
+    """multiprocessing.Process stand-in: start() runs the target at once"""
+    def __init__(self, target=None, args=()):
+        self.target, self.args, self.daemon = target, args, False
+    def start(self): self.target(*self.args)
+    def join(self, timeout=None): pass
+    def is_alive(self): return False
+    def terminate(self): pass
+
+
+class SyncMP(object):
+    Process = SyncProc
+    @staticmethod
+    def Lock(): return FakeLock()
+
+
+class ResQueue(object):
+    def __init__(self): self.items = []
+    def put(self, x): self.items.append(x)
+    def close(self): pass
+    def join_thread(self): pass
+
+
+class FakeAsyncio(object):
+    @staticmethod
+    def run(coro):
+        try:
+            coro.send(None)
+        except StopIteration as e:
+            return e.value
+        raise RuntimeError('dispatcher suspended')
+
+
+class FakeWdOS(object):
+    def __init__(self): self.environ = dict(os.environ)
+    def chdir(self, p): pass
+    def getpid(self): return 4321
+    def __getattr__(self, k): return getattr(os, k)
+
+
+class FakeWdRU(object):
+    def rec_makedir(self, p): pass
+    def __getattr__(self, k): return getattr(ru, k)
+
+
+# request kinds: (mode, description extras, succeeds?)
+def _req(kind):
+    if kind == 0:
+        return m_td.TASK_EVAL, {'code': '1 + 1'}, True
+    if kind == 1:
+        return m_td.TASK_EVAL, {'code': '1 / 0'}, False        # payload raises
+    if kind == 2:
+        return m_td.TASK_EVAL, {}, False                        # no code
+    if kind == 3:
+        return 'task.unknown_mode', {'code': '1'}, False        # no dispatcher
+    if kind == 4:
+        return m_td.TASK_FUNC, {'function': 'verif_payload',
+                                'args': [0, 5], 'kwargs': {}}, True
+    if kind == 5:
+        return m_td.TASK_FUNC, {'function': 'verif_payload',
+                                'args': [2, 5], 'kwargs': {}}, False
+    return m_td.TASK_FUNC, {'function': 'no_such_function', 'args': [],
+                            'kwargs': {}}, False
+
+
+@obligation(params={'kind': (0, 6), 'second': (0, 6)},
+            partition={'quick': ('kind', 7), 'thorough': ('kind', 7)},
+            timeout={'quick': 300, 'thorough': 600},
+            funcs=['radical/pilot/raptor/worker_default.py:DefaultWorker.' + n
+                   for n in ('_request_cb', '_dispatch', '_result_cb')] +
+                  ['radical/pilot/raptor/worker.py:Worker.get_dispatcher',
+                   'radical/pilot/raptor/master.py:Master._result_cb'],
+            bounds='two requests, each one of: eval ok / eval raising / eval '
+                   'without code / unknown mode / function ok / function '
+                   'raising / unknown function; run through _request_cb -> '
+                   '_dispatch -> _worker_proc -> result queue -> _result_cb '
+                   '-> Master._result_cb',
+            stubs=['multiprocessing.Process -> synchronous stand-in',
+                   'asyncio.run -> direct drive', 'os.chdir / rec_makedir -> '
+                   'no-op', 'sys.exit in _dispatch -> caught'])
+def h_request_chain(kind, second):
+    """DONE iff the call succeeded, for every way a request can fail"""
+    kind, second = conc(kind, 0, 6), conc(second, 0, 6)
+    w = mk_worker(2, 0)
+    w._sbox, w._result_queue = '/pilot/worker', ResQueue()
+    w._modes = {}
+    real(w.register_mode, m_td.TASK_FUNC, w._dispatch_func)
+    real(w.register_mode, m_td.TASK_EVAL, w._dispatch_eval)
+    m_wd.mp, m_wd.asyncio = SyncMP, FakeAsyncio
+    m_wd.os, m_wd.ru = FakeWdOS(), FakeWdRU()
+    os.environ = dict(os.environ)
+    m  = mk_master()
+    ok = {}
+    for i, k in enumerate((kind, second)):
+        mode, extra, succeeds = _req(k)
+        uid = 'r%d' % i
+        ok[uid] = succeeds
+        d = {'mode': mode, 'timeout': 0, 'environment': {}}
+        d.update(extra)
+        task = {'uid': uid, 'type': 'task', 'cores': 1, 'gpus': 0,
+                'task_sandbox_path': '/pilot/%s' % uid, 'description': d}
+        check(real(w._alloc, task), 'request not accepted')
+        try:
+            w._dispatch(task, {})
+        except SystemExit:
+            pass                         # the dispatch process ends
+        check(len(w._result_queue.items) == 1, 'request %s produced %s results',
+              uid, len(w._result_queue.items))
+        res = w._result_queue.items.pop()
+        w._pool[task['pid']] = object()
+        real(w._result_cb, res)
+    reach()
+    check(w._resources['cores'] == [0, 0], 'cores not given back: %s',
+          w._resources)
+    real(m._result_cb, list(w._res_put.items))
+    for t in w._res_put.items:
+        want = rps.DONE if ok[t['uid']] else rps.FAILED
+        check(t['target_state'] == want, 'request %s (%s) ends %s: exit code '
+              '%r, exception %r', t['uid'], 'succeeded' if ok[t['uid']]
+              else 'failed', t['target_state'], t.get('exit_code'),
+              t.get('exception'))
+        if not ok[t['uid']]:
+            check(t.get('exit_code') != 0, 'failed request %s reports exit '
+                  'code 0', t['uid'])
+            check(t.get('exception'), 'failed request %s reports no '
+                  'exception', t['uid'])
+    check(len(w._res_put.items) == 2, 'results reported: %s',
+          len(w._res_put.items))
